@@ -1,9 +1,16 @@
+import MdsVerif.Gen.Stack
 /-!
 # Model of `stack.Stack` (stack/stack.go): a slice whose LAST element is the top
 
 `list` is the Go slice `s.list` in slice order (`append` adds at the end).
 `Peek(n)` for `n < 0` indexes `s.list[len-1-n]` out of range: an explicit
 `panicIndex` result.
+
+`Top`'s empty test and index, `Peek`'s range test and index `len-1-n`, the argument of the `Peek` inside `Pop` and
+the length `Pop` truncates to, `IsEmpty`'s test and the start index of the `Each`/`Slice` loops are definitions
+of `MdsVerif.Gen.Stack`, which `extract/stack.go` regenerates from stack.go on every run (DESIGN.md §3.1);
+`Props.C10.C10_current_stack` pins every one of them (and the loop tests and steps of `Each`/`Slice`, which the
+structural `walkDown` below does not take from there).
 -/
 namespace MdsVerif.Model.Stack
 variable {α : Type} [Inhabited α]
@@ -24,18 +31,22 @@ deriving Repr, DecidableEq
 def push (s : S α) (v : α) : S α := s ++ [v]
 
 /-- `Top`: zero value when empty, else `s.list[len-1]` -/
-def top (s : S α) : α := if s.length = 0 then default else s.getD (s.length - 1) default
+def top (s : S α) : α :=
+  if Gen.Stack.topEmpty s.length then default else s.getD (Gen.Stack.topIdx s.length).toNat default
 
 /-- `Peek(n)`: `if n >= len {zero,false}`, else `s.list[len-1-n]` (index panic for `n < 0`) -/
 def peek (s : S α) (n : Int) : Out α :=
-  if n ≥ (s.length : Int) then .opt none
-  else if n < 0 then .panicIndex
-  else .opt (some (s.getD (s.length - 1 - n.toNat) default))
+  if Gen.Stack.peekOut n s.length then .opt none
+  else
+    let i : Int := Gen.Stack.peekIdx n s.length
+    -- Go's bounds check on `s.list[i]`
+    if i < 0 ∨ i ≥ (s.length : Int) then .panicIndex
+    else .opt (some (s.getD i.toNat default))
 
 /-- `Pop`: `out, ok := s.Peek(0); if ok { s.list = s.list[:len-1] }` -/
 def pop (s : S α) : S α × Option α :=
-  match peek s 0 with
-  | .opt (some v) => (s.take (s.length - 1), some v)
+  match peek s Gen.Stack.popPeeks with
+  | .opt (some v) => (s.take (Gen.Stack.popLen s.length).toNat, some v)
   | _ => (s, none)
 
 /-- visit `cnt` cells downwards from index `i` (the loops of `Each` and `Slice`) -/
@@ -44,9 +55,10 @@ def walkDown (s : S α) : Nat → Nat → List α
   | i, c + 1 => s.getD i default :: walkDown s (i - 1) c
 
 /-- `Each` with a callback that returns false after `k` further elements -/
-def each (s : S α) (k : Nat) : List α := walkDown s (s.length - 1) (min s.length (k + 1))
+def each (s : S α) (k : Nat) : List α := walkDown s (Gen.Stack.eachStart s.length).toNat (min s.length (k + 1))
 /-- `Slice`: a copy, newest first -/
-def slice (s : S α) : List α := walkDown s (s.length - 1) s.length
+def slice (s : S α) : List α :=
+  if Gen.Stack.sliceEmpty s.length then [] else walkDown s (Gen.Stack.sliceStart s.length).toNat s.length
 
 def step (s : S α) : Op α → S α × Out α
   | .push v => (push s v, .unit)
@@ -57,7 +69,7 @@ def step (s : S α) : Op α → S α × Out α
   | .peek n => (s, peek s n)
   | .each k => (s, .list (each s k))
   | .len => (s, .nat s.length)
-  | .isEmpty => (s, .bool (s.length == 0))
+  | .isEmpty => (s, .bool (Gen.Stack.isEmptyTest s.length))
   | .slice => (s, .list (slice s))
 
 def run (s : S α) : List (Op α) → List (Out α)
